@@ -60,3 +60,33 @@ Theorem C07_two_policy_settings_return_the_same_record :
     r1 = r2 /\ s1 = s2.
 Proof. intros. eapply same_record_under_any_two_settings; try eassumption. exact gen_table_ok. Qed.
 Print Assumptions C07_two_policy_settings_return_the_same_record.
+
+(** "... with repair options on, only the documented repairs (Content-Length, block and payload
+    digest fields ...) may differ": under every option setting (add-missing and repair options on
+    or off), every policy and whatever it finds, length and digest verification leaves the value of
+    every header field other than Content-Length, WARC-Block-Digest and WARC-Payload-Digest as it
+    was (Proofs/RepairScopeProofs.v).  (The missing HTTP header terminator is a repair of the block,
+    made by parseBlock; it touches no header field.) *)
+Require Import Proofs.RepairScopeProofs.
+Theorem C07_repairs_touch_only_the_length_and_digest_fields :
+  forall uni_lower H b32 b64 o rt hs b bd pd cached fnd hs' fnd',
+    validate_digest field_table uni_lower H b32 b64 o rt hs b bd pd cached fnd = Ok hs' fnd' ->
+    forall a, normalize_name field_table uni_lower a <> normalize_name field_table uni_lower n_content_length ->
+              normalize_name field_table uni_lower a <> normalize_name field_table uni_lower n_block_digest ->
+              normalize_name field_table uni_lower a <> normalize_name field_table uni_lower n_payload_digest ->
+              m_get field_table uni_lower a hs' = m_get field_table uni_lower a hs.
+Proof.
+  intros ul H b32 b64 o rt hs b bd pd cached fnd hs' fnd' E a H1 H2 H3.
+  apply (validate_digest_scope field_table ul H b32 b64 o rt hs b bd pd cached fnd hs' fnd' E a).
+  unfold repairable. tauto.
+Qed.
+Print Assumptions C07_repairs_touch_only_the_length_and_digest_fields.
+
+(** non-vacuity: the other fields of the table are such names (shown for five of them) *)
+From Coq Require Import String.
+Example C07_other_fields_exist :
+  Forall (fun a => normalize_name field_table (fun s => s) a <> normalize_name field_table (fun s => s) n_content_length /\
+                   normalize_name field_table (fun s => s) a <> normalize_name field_table (fun s => s) n_block_digest /\
+                   normalize_name field_table (fun s => s) a <> normalize_name field_table (fun s => s) n_payload_digest)
+         [bs "WARC-Date"; bs "WARC-Type"; bs "WARC-Record-ID"; bs "Content-Type"; bs "X-Unknown"]%string.
+Proof. repeat constructor; vm_compute; discriminate. Qed.
